@@ -15,7 +15,45 @@ INT_T = ("int", "long", "unsigned int", "unsigned long", "short", "unsigned shor
          "long long", "unsigned long long")
 
 
-def flat(stmts):
+def subst_ref(node, vid, value):
+    """Copy of an AST fragment with every reference to local `vid` replaced by the integer literal `value`."""
+    if isinstance(node, list):
+        return [subst_ref(x, vid, value) for x in node]
+    if isinstance(node, dict):
+        if node.get("k") == "Ref" and node.get("id") == vid:
+            return {"k": "Int", "v": value, "t": "int", "l": node.get("l"), "c": node.get("c")}
+        return {k: subst_ref(v, vid, value) for k, v in node.items()}
+    return node
+
+
+def const_loop(s):
+    """(variable id, start, stop) of `for (T i = a; i < b; ++i)` with literal a, b and b - a <= 8, else None."""
+    if s.get("k") != "For":
+        return None
+    init, c, inc = s.get("init"), C.strip_casts(s.get("c")) if s.get("c") else None, C.strip_casts(s.get("inc")) if s.get("inc") else None
+    if init is None or init.get("k") != "Decl" or len(init["d"]) != 1 or c is None or inc is None:
+        return None
+    d = init["d"][0]
+    a = C.const_int(d.get("init")) if d.get("init") is not None else None
+    if a is None or not (c.get("k") == "Bin" and c["op"] == "<" and C.strip_casts(c["a"]).get("id") == d["id"]):
+        return None
+    b = C.const_int(c["b"])
+    if b is None or not (0 <= b - a <= 8):
+        return None
+    if not (inc.get("k") == "Un" and inc.get("op") in ("pre++", "post++") and C.strip_casts(inc["x"]).get("id") == d["id"]):
+        return None
+    body_writes = [x for x in C.walk_stmt(s["body"]) if (x.get("k") == "Bin" and x.get("op", "").endswith("=") and
+                   x.get("op") not in ("==", "!=", "<=", ">=") and C.strip_casts(x["a"]).get("id") == d["id"]) or
+                   (x.get("k") == "Un" and "++" in x.get("op", "") + "--" and x.get("op") in ("pre++", "post++", "pre--", "post--")
+                    and C.strip_casts(x["x"]).get("id") == d["id"])]
+    if body_writes:
+        return None
+    return d["id"], a, b
+
+
+def flat(stmts, unroll=True):
+    """Statements with blocks flattened, macro expansions and null statements dropped, and loops with literal bounds (the
+    three-axis loops of the grid code) unrolled by substituting the counter."""
     out = []
     for s in stmts:
         if s is None:
@@ -23,8 +61,14 @@ def flat(stmts):
         if s.get("k") == "Block":
             if s.get("mac"):
                 continue
-            out += flat(s["s"])
-        elif s.get("k") != "Null":
+            out += flat(s["s"], unroll)
+        elif s.get("k") == "Null":
+            continue
+        elif unroll and const_loop(s) is not None:
+            vid, a, b = const_loop(s)
+            for i in range(a, b):
+                out += flat([subst_ref(s["body"], vid, i)], unroll)
+        else:
             out.append(s)
     return out
 
@@ -45,9 +89,42 @@ def axis_of(e):
     return None, None
 
 
+_ALIASES = {}
+
+
+def load_aliases(fn):
+    """Reference / copy locals that merely name an accessor chain (`const CoordinateVector<> &sides = _box.get_sides();`)."""
+    for st in C.walk_stmt(fn["body"]):
+        if st.get("k") == "Decl":
+            for d in st["d"]:
+                init = d.get("init")
+                t = d.get("t") or ""
+                if init is None or not (t.rstrip().endswith("&") or "CoordinateVector" in t or "Box" in t):
+                    continue
+                i0 = C.strip_casts(init)
+                while i0 is not None and i0.get("k") == "Ctor" and len(i0["a"]) == 1:
+                    i0 = C.strip_casts(i0["a"][0])
+                chain = i0
+                ok = True
+                while chain is not None and chain.get("k") != "This":
+                    if chain.get("k") == "Mem":
+                        chain = C.strip_casts(chain["b"])
+                    elif chain.get("k") == "Call" and chain.get("obj") is not None and not chain["a"]:
+                        chain = C.strip_casts(chain["obj"])
+                    elif chain.get("k") == "Ref" and chain.get("dk") == "ParmVar":
+                        break
+                    else:
+                        ok = False
+                        break
+                if ok and i0 is not None and i0.get("k") in ("Mem", "Call"):
+                    _ALIASES[d["id"]] = i0
+
+
 def base_name(b):
     """Stable name of the base of a component access: local name, member name, or the accessor chain."""
     b = C.strip_casts(b)
+    if b.get("k") == "Ref" and b.get("id") in _ALIASES:
+        return base_name(_ALIASES[b["id"]])
     if b.get("k") == "Ref":
         return b.get("n")
     if b.get("k") == "Mem":
@@ -57,13 +134,84 @@ def base_name(b):
     return C.pretty(b)
 
 
+_LIB = [None]
+
+
+def fn_value(callee, args, conv, depth=0):
+    """Value of a loop-free scalar helper as a (piecewise) formula of its arguments."""
+    if depth > 3:
+        raise AnalysisBroken("helper chain too deep below %s" % callee["full"])
+    env = Env()
+    for p_, a_ in zip(callee["params"], args):
+        env.vals[("l", p_["id"])] = a_
+
+    def truth(c):
+        return c if isinstance(c, (sp.Basic,)) or c in (True, False) else sp.sympify(c)
+
+    def ev(stmts):
+        for i, st in enumerate(stmts):
+            k = st.get("k")
+            if k == "Decl":
+                for d in st["d"]:
+                    if d.get("init") is not None:
+                        env.vals[("l", d["id"])] = conv.conv(d["init"], env)
+            elif k == "Bin" and st["op"] == "=" and C.strip_casts(st["a"]).get("k") == "Ref":
+                env.vals[("l", C.strip_casts(st["a"])["id"])] = conv.conv(st["b"], env)
+            elif k == "If":
+                c = conv.conv(st["c"], env)
+                saved = dict(env.vals)
+                tv = ev(flat([st["th"]]) + stmts[i + 1:])
+                env.vals = dict(saved)
+                fv = ev(flat([st["el"]] if st.get("el") is not None else []) + stmts[i + 1:])
+                env.vals = saved
+                if c in (sp.true, True):
+                    return tv
+                if c in (sp.false, False):
+                    return fv
+                return sp.Piecewise((tv, c), (fv, True))
+            elif k == "Return":
+                return conv.conv(st["x"], env)
+            else:
+                raise AnalysisBroken("%s: statement kind %s in a scalar helper" % (callee["full"], k))
+        raise AnalysisBroken("%s: a path without return" % callee["full"])
+    return ev(flat(callee["body"]["s"]))
+
+
 class CompConv(Converter):
-    """Converter naming vector components `<base>_<axis>`; integer `/` is floor division."""
+    """Converter naming vector components `<base>_<axis>`; integer `/` is floor division; loop-free scalar helpers of the
+    library (free functions, static members) are inlined."""
 
     def __init__(self, **kw):
         self.kw = kw
-        super().__init__(atoms=self._atoms)
+        super().__init__(atoms=self._atoms, call_hook=self._inline)
         self.syms = {}
+        self._depth = 0
+
+    def _inline(self, e, env, conv):
+        lib = _LIB[0]
+        if lib is None or e.get("obj") is not None or e.get("op"):
+            return None
+        name = e.get("fn") or ""
+        if not name or name.startswith("std::"):
+            return None
+        cands = [d for d in lib.decls if d["kind"] == "function" and d.get("body") is not None and
+                 d["full"].split("(")[0] == name and len(d["params"]) == len(e["a"])]
+        if not cands or self._depth > 3:
+            return None
+        callee = cands[0]
+        if any(x.get("k") in ("For", "While", "Do", "Switch") for x in C.walk_stmt(callee["body"])):
+            return None
+        if any("&" in (p_.get("t") or "") and "const" not in (p_.get("t") or "") for p_ in callee["params"]):
+            return None
+        try:
+            args = [self.conv(a, env) for a in e["a"]]
+        except AnalysisBroken:
+            return None
+        self._depth += 1
+        try:
+            return fn_value(callee, args, self)
+        finally:
+            self._depth -= 1
 
     def csym(self, base, a, integer=False):
         key = (base, a)
@@ -84,6 +232,8 @@ class CompConv(Converter):
     def binop(self, op, a, b, e=None):
         if op == "/" and e is not None and (e.get("t") or "").replace("const ", "").strip() in INT_T:
             return sp.floor(a / b)
+        if op == "%":
+            return a - b * sp.floor(a / b)
         return super().binop(op, a, b, e)
 
 
@@ -213,6 +363,7 @@ def one(lib, name):
     fns = [d for d in lib.decls if d["kind"] == "function" and d["full"].split("(")[0] == name and d.get("body")]
     if not fns:
         raise AnalysisBroken("%s not found" % name)
+    load_aliases(fns[0])
     return fns[0]
 
 
@@ -457,6 +608,18 @@ def straight(fn, conv, env):
                 old = conv.conv(st["a"], env)
             env.vals[key] = {"=": v, "+=": (old or 0) + v, "-=": (old or 0) - v, "*=": (old or 0) * v}.get(st["op"]) \
                 if st["op"] != "/=" else conv.binop("/", old, v, st)
+        elif k in ("Bin", "Call") and st.get("op") in ("=", "+=", "-=") and \
+                axis_of(st["a"] if k == "Bin" else st.get("obj"))[0] is not None:
+            lhs = st["a"] if k == "Bin" else st["obj"]
+            rhs = st["b"] if k == "Bin" else st["a"][0]
+            b, a = axis_of(lhs)
+            b0 = C.strip_casts(b)
+            if b0.get("k") != "Ref" or "id" not in b0:
+                raise AnalysisBroken("%s: component assignment to `%s` (line %s)" % (fn["full"], C.pretty(lhs), st.get("l")))
+            key = ("i", ("l", b0["id"]), a)
+            v = conv.conv(rhs, env)
+            old = env.vals.get(key, sp.Integer(0))
+            env.vals[key] = {"=": v, "+=": old + v, "-=": old - v}[st["op"]]
         elif k == "Return":
             return st
         else:
@@ -472,6 +635,8 @@ def vec_of(conv, env, e):
         return [conv.conv(a, env) for a in e["a"]]
     if k == "Ctor" and len(e["a"]) == 1:
         return vec_of(conv, env, e["a"][0])
+    if k == "Ctor" and not e["a"] and "CoordinateVector" in (e.get("cls") or e.get("t") or ""):
+        return [sp.Integer(0)] * 3
     if k in ("Ref", "Mem"):
         key = conv.key(e)
         if ("i", key, 0) in env.vals:
@@ -601,6 +766,7 @@ def rule_index_maps(chk, lib, prog):
     if not ctor:
         raise AnalysisBroken("CartesianDensityGrid constructor not found")
     ctor = ctor[0]
+    load_aliases(ctor)
     chk.analysed(function=ctor["full"])
     cenv = Env()
     for st in flat(ctor["body"]["s"]):
@@ -685,6 +851,7 @@ def rule_index_maps(chk, lib, prog):
 
 
 def run(chk, prog, lib):
+    _LIB[0] = lib
     n3 = rule_wall(chk, lib)
     chk.floor("N3", n3, 14)
     n4 = rule_inside(chk, lib)
@@ -699,7 +866,7 @@ def run(chk, prog, lib):
 def rule_neighbours(chk, lib):
     fn = one(lib, "CartesianDensityGrid::get_neighbours")
     chk.analysed(function=fn["full"])
-    loops = [s for s in flat(fn["body"]["s"]) if s.get("k") == "For"]
+    loops = [s for s in flat(fn["body"]["s"], unroll=False) if s.get("k") == "For"]
     if len(loops) != 1:
         raise AnalysisBroken("get_neighbours: expected one loop over the axes")
     loop = loops[0]
@@ -763,12 +930,18 @@ def rule_neighbours(chk, lib):
                 b = comp_name(e)
                 return b is not None and base_name(C.strip_casts(b)) == "_periodicity_flags"
 
+            bools = {}
+
             def cond_val(e):
                 e0 = C.strip_casts(e)
                 if e0.get("k") == "Un" and e0["op"] == "!":
                     return not cond_val(e0["x"])
                 if is_flag(e0):
                     return flag
+                if e0.get("k") == "Ref" and e0.get("id") in bools:
+                    return bools[e0["id"]]
+                if e0.get("k") == "Bool":
+                    return bool(e0["v"])
                 if e0.get("k") == "Bin" and e0["op"] in ("&&", "||"):
                     l = cond_val(e0["a"])
                     return (l and cond_val(e0["b"])) if e0["op"] == "&&" else (l or cond_val(e0["b"]))
@@ -817,14 +990,19 @@ def rule_neighbours(chk, lib):
                                 it = iter_of(init)
                                 if it is not None:
                                     iters[d["id"]] = it
+                            elif t.replace("const ", "").strip() == "bool" and init is not None:
+                                bools[d["id"]] = cond_val(init)
                     elif kk in ("Bin", "Call") and st.get("op") in ("=", "+=", "-="):
                         lhs = st["a"] if kk == "Bin" else st.get("obj")
                         rhs = st["b"] if kk == "Bin" else (st["a"][0] if st["a"] else None)
                         b = comp_name(lhs) if lhs is not None else None
                         if b is not None and C.strip_casts(b).get("k") == "Ref" and C.strip_casts(b).get("id") in vec:
                             i = C.strip_casts(b)["id"]
+                            r0 = C.strip_casts(rhs)
+                            while r0 is not None and r0.get("k") == "Cond":
+                                r0 = C.strip_casts(r0["a"] if cond_val(r0["c"]) else r0["b"])
                             try:
-                                v = conv.conv(rhs, env)
+                                v = conv.conv(r0, env)
                             except AnalysisBroken:
                                 v = sp.Symbol("opaque_%s" % st.get("l"), real=True)
                             vec[i] = {"=": v, "+=": vec[i] + v, "-=": vec[i] - v}[st["op"]]
@@ -851,7 +1029,7 @@ def rule_neighbours(chk, lib):
                     elif kk in ("For", "While", "Do", "Switch"):
                         raise AnalysisBroken("get_neighbours: nested loop in the per-axis body")
             # the index vector of the cell itself
-            for st in flat(fn["body"]["s"]):
+            for st in flat(fn["body"]["s"], unroll=False):
                 if st.get("k") == "Decl":
                     for d in st["d"]:
                         if "CoordinateVector<int" in (d.get("t") or "") or "CoordinateVector<long" in (d.get("t") or ""):
